@@ -127,6 +127,8 @@ def main():
                 nitems.append({'type': 'categorical', 'p': p, 'ns': ns, 'nf': 3, 'card': 4, 'classes': rng.choice([2, 3]), 'seed': rng.randrange(10 ** 6)})
                 nitems.append({'type': 'missing', 'p': p, 'ns': ns, 'nf': 3, 'card': 4, 'missing_val': -1, 'seed': rng.randrange(10 ** 6)})
                 nitems.append({'type': 'missing', 'p': p, 'ns': ns, 'nf': 2, 'card': 5, 'missing_val': float('-inf'), 'float': True, 'seed': rng.randrange(10 ** 6)})
+        for ns_, cl_ in ((30, 2), (57, 3), (200, 2), (200, 3)):
+            nitems.append({'type': 'categorical', 'p': 0.3, 'ns': ns_, 'nf': 3, 'card': rng.choice([3, 4, 5]), 'classes': cl_, 'disjoint': True, 'seed': rng.randrange(10 ** 6)})
         # label sets that are not 0..k-1 (a class absent / arbitrary label values)
         nitems.append({'type': 'categorical', 'p': 0.2, 'ns': 40, 'nf': 3, 'card': 4, 'classes': 3, 'labels': [0, 2, 2, 0], 'seed': 4242})
         nitems.append({'type': 'categorical', 'p': 0.2, 'ns': 40, 'nf': 3, 'card': 4, 'classes': 3, 'labels': [5, 9], 'seed': 4243})
